@@ -175,11 +175,21 @@ impl JobManager {
 
     /// Waits for all managed jobs to complete.
     pub async fn wait_all(&mut self) -> Result<Vec<Job>, error::Error> {
+        // Wait for every job, even when one of them reports an error; the first error is
+        // reported once all jobs have finished.
+        let mut first_error = None;
         for job in &mut self.jobs {
-            job.wait().await?;
+            if let Err(err) = job.wait().await {
+                first_error.get_or_insert(err);
+            }
         }
 
-        Ok(self.sweep_completed_jobs())
+        let completed_jobs = self.sweep_completed_jobs();
+
+        match first_error {
+            Some(err) => Err(err),
+            None => Ok(completed_jobs),
+        }
     }
 
     /// Polls all managed jobs for completion.
@@ -383,7 +393,16 @@ impl Job {
         let mut result = ExecutionResult::success();
 
         while let Some(task) = self.tasks.back_mut() {
-            match task.wait().await? {
+            let wait_result = match task.wait().await {
+                Ok(wait_result) => wait_result,
+                Err(err) => {
+                    // The task has finished (with an error); it must not be awaited again.
+                    self.tasks.pop_back();
+                    return Err(err);
+                }
+            };
+
+            match wait_result {
                 JobTaskWaitResult::Completed(execution_result) => {
                     result = execution_result;
                     self.tasks.pop_back();
